@@ -30,6 +30,37 @@ Trim(s) == RTrim(LTrim(s))
 RS(s) == [k |-> "s", s |-> s, i |-> 0]
 RI(i) == [k |-> "i", s |-> <<>>, i |-> i]
 
+(* ---- integer parameters written as numerals ---- *)
+\* The offsets / lengths / counts / positions of #sub #pos #explode #titleparts padleft padright are
+\* integers handed over as TEXT.  Documented: the parameter is trimmed and is a decimal integer
+\* numeral, digits with an optional "-" (IntArgPlain); leading zeros do not change the number
+\* ("007" is seven, "-01" is minus one, "00" and "-0" are zero).  For every other text the
+\* documentation is silent; the reference then reads it the way PHP's intval() does -- optional sign,
+\* the leading run of digits, 0 if there is none -- and a call with such a parameter is outside the
+\* documented domain (strict = FALSE in MC_StrFns: a difference is drift).
+DigitVal == ("0" :> 0) @@ ("1" :> 1) @@ ("2" :> 2) @@ ("3" :> 3) @@ ("4" :> 4) @@ ("5" :> 5) @@ ("6" :> 6) @@
+            ("7" :> 7) @@ ("8" :> 8) @@ ("9" :> 9)
+IsDigitAtom(a) == a \in DOMAIN DigitVal
+RECURSIVE DigitRun(_)        \* the leading run of digits
+DigitRun(s) == IF Len(s) > 0 /\ IsDigitAtom(s[1]) THEN <<s[1]>> \o DigitRun(Tail(s)) ELSE <<>>
+RECURSIVE Positional(_, _)   \* positional notation, most significant digit first
+Positional(ds, acc) == IF Len(ds) = 0 THEN acc ELSE Positional(Tail(ds), 10 * acc + DigitVal[ds[1]])
+IntArg(s0) ==
+  LET s == Trim(s0)
+      signed == Len(s) > 0 /\ s[1] \in {"-", "+"}
+      body == IF signed THEN Tail(s) ELSE s
+      v == Positional(DigitRun(body), 0)
+  IN IF signed /\ s[1] = "-" THEN -v ELSE v
+IntArgPlain(s0) ==
+  LET s == Trim(s0)
+      body == IF Len(s) > 0 /\ s[1] = "-" THEN Tail(s) ELSE s
+  IN Len(body) > 0 /\ DigitRun(body) = body
+\* the canonical numeral of an integer
+DigitAtoms == <<"0", "1", "2", "3", "4", "5", "6", "7", "8", "9">>
+RECURSIVE Dec(_)
+Dec(n) == IF n < 10 THEN <<DigitAtoms[n + 1]>> ELSE Dec(n \div 10) \o <<DigitAtoms[(n % 10) + 1]>>
+Canon(v) == IF v < 0 THEN <<"-">> \o Dec(-v) ELSE Dec(v)
+
 (* ---- #len ---- *)
 StrLen(s) == RI(Len(Trim(s)))
 
